@@ -12,7 +12,7 @@ import (
 
 // Dynamic Go values in the line protocol (DESIGN §5.1):
 //   int:N i8:N i16:N i32:N i64:N u:N u8:N u16:N u32:N u64:N alg:N   integers of a given Go kind
-//   b:HEX bnil bs:HEX        []byte, nil []byte, key.ByteStr        (HEX "-" = empty)
+//   b:HEX bnil bs:HEX bx:HEX []byte, nil []byte, key.ByteStr, another named byte-slice type   (HEX "-" = empty)
 //   t:HEX                    string (UTF-8 bytes in hex)
 //   T F nil f:FLOAT
 //   [ v … ]   ints[ n … ]   ops[ n … ]   { k v … }                   []any, []int, key.Ops, key.CoseMap
@@ -109,6 +109,8 @@ func parseVal(toks []string, i int) (any, int) {
 		return unhx(body), i + 1
 	case "bs":
 		return key.ByteStr(unhx(body)), i + 1
+	case "bx": // a byte-slice type that is neither []byte nor key.ByteStr (what GetBytes reaches through reflection)
+		return namedBytes(unhx(body)), i + 1
 	case "t":
 		return string(unhx(body)), i + 1
 	case "f":
@@ -181,3 +183,6 @@ func uintToken(pick func(n int) int, v uint64) string {
 	}
 	return fmt.Sprintf("%s:%d", kinds[pick(len(kinds))], v)
 }
+
+// namedBytes stands for application types such as `type KeyID []byte` or crypto/ed25519.PublicKey held in a key map
+type namedBytes []byte
